@@ -70,7 +70,13 @@ def evaluate(cfg, stim, backend="fast"):
             elif gt is not None:
                 pushed = sum(1 for g, t in ev["w_push"] if g < gt)
                 pulsed = sum(1 for g, t in ev["w_pulse"] if g < gt)
-                f["key"] = "wdata_fifo_shallower_than_commands_in_flight" if (pushed - pulsed) >= cfg["wdata_depth"] - 3 and cfg["wdata_depth"] < cfg["cmd_depth"] + stim["slave"].get("qmax", 8) else "W-other"
+                # words the USER side still believes to be in the FIFO: the read pointer needs about three user clocks to become visible there, so
+                # with a slow user clock strobes of the last 3 user periods have not freed their slots yet (the FIFO "looks full" while it is empty)
+                pu_, ps_ = cfg["clocks"]["user"][0], cfg["clocks"]["sys"][0]
+                hidden = -(-3 * pu_ // ps_)
+                visible = sum(1 for g, t in ev["w_pulse"] if g < gt and t <= tl - hidden)
+                shallow = cfg["wdata_depth"] < cfg["cmd_depth"] + stim["slave"].get("qmax", 8)
+                f["key"] = "wdata_fifo_shallower_than_commands_in_flight" if shallow and ((pushed - pulsed) >= cfg["wdata_depth"] - 3 or (pushed - visible) >= cfg["wdata_depth"] - 1) else "W-other"
                 f["what"] += " [%d write words entered, %d strobed, wdata FIFO depth %d, cmd FIFO depth %d]" % (pushed, pulsed, cfg["wdata_depth"], cfg["cmd_depth"])
     x = run.xlog
     for name, a, b in (("commands", "cmd_u", "cmd_s"), ("write words", "wd_u", "wd_s"), ("read words", "rd_s", "rd_u")):
